@@ -155,6 +155,7 @@ def make_case(rng, maxn=400, workers=None, fail_fast=None, cancel=False, family=
     c["latUs"] = lat
     c["yield"] = rng.random() < 0.5
     c["onCancel"] = [rng.choice(["abort", "abort", "fail", "ignore"]) for _ in range(n)]
+    c["failKind"] = [rng.choice(["error", "error", "deadline"]) for _ in range(n)]
     c["workers"] = rng.choice([0, 0, 1, 2, 3, 8]) if workers is None else workers
     # unselected nodes: a set closed under dependants (so the selection is closed under dependencies)
     unsel = set()
